@@ -350,18 +350,24 @@ pub fn run(tape: &mut Tape, props: Props, p: &Params, trace_on: bool) -> Outcome
         let bystander = |n: &mut Node| {
             let mut l = tcp::Socket::new(tcp::SocketBuffer::new(vec![0; 64]), tcp::SocketBuffer::new(vec![0; 64]));
             l.listen(9).unwrap();
-            n.sockets.add(l);
+            let hl = n.sockets.add(l);
             let mut u = smoltcp::socket::udp::Socket::new(
                 smoltcp::socket::udp::PacketBuffer::new(vec![smoltcp::socket::udp::PacketMetadata::EMPTY; 1], vec![0u8; 64]),
                 smoltcp::socket::udp::PacketBuffer::new(vec![smoltcp::socket::udp::PacketMetadata::EMPTY; 1], vec![0u8; 64]),
             );
             u.bind(9).unwrap();
             n.sockets.add(u);
+            hl
         };
-        if i == 0 {
-            bystander(&mut nodes[i]);
-        }
+        let first = if i == 0 { Some(bystander(&mut nodes[i])) } else { None };
         let h = nodes[i].sockets.add(s);
+        // in half of the runs the application then drops the first of them: the set has a hole in front of the
+        // socket that does the work
+        if let Some(hl) = first {
+            if key[i] & 8 == 0 {
+                nodes[i].sockets.remove(hl);
+            }
+        }
         if i == 1 {
             bystander(&mut nodes[i]);
         }
